@@ -14,6 +14,13 @@ Automata are compared by language: product construction over the direction alpha
 automata-lib's ==), cross-checked once per run against word-by-word agreement on all words of length <= 8.
 Lengths 7.. of the shipped files are compared with the library's own predicate functions (weaker,
 implementation-side; C12 verifies those predicates against the definitions).
+
+Hardening round: data set names that contain underscores, that are a prefix of one another ("a" / "a_b") and that
+lie in a sub-directory; names and paths handed over relative, absolute, as pathlib.Path and by keyword; a data set
+of length 0 and one of length 5 in the histories (their tables are emitted by TLC and compared like the others);
+the dictionary a read returned is emptied by the caller before the next read; bases for make_dfa_for_basis_from_db
+as reversed list, tuple, set and with repeated elements; cold starts (a fresh interpreter whose first calls are a
+load / a union from an empty database and a read of a file written by another process).
 """
 import collections
 import concurrent.futures
@@ -26,7 +33,10 @@ import itertools
 import json
 import os
 import re
+import pathlib
 import shutil
+import subprocess
+import sys
 import tempfile
 import time
 
@@ -272,6 +282,9 @@ class Real:
         self.dir = os.path.join(work_base(self.ctx), "c20-%d-%d" % (id(self) % 100000, self.serial))
         os.makedirs(self.dir)
         os.chdir(self.dir)
+        for nm in self.cfg["names"]:
+            if os.path.dirname(nm):
+                os.makedirs(os.path.dirname(nm), exist_ok=True)
         clear_memos()
         self.last = {}
         self.step = 0
@@ -382,11 +395,27 @@ class Real:
     def read(self, stem):
         """read_bisc_file -> (data set id | 0 invalid | -1 other data | -2 raised, message printed, detail)."""
         out = io.StringIO()
+        self.nread = getattr(self, "nread", 0) + 1
+        how = self.nread % 4          # the same file named in four ways
         try:
             with contextlib.redirect_stdout(out):
-                got = bisc_mod.read_bisc_file(stem)
+                if how == 0:
+                    got = bisc_mod.read_bisc_file(stem)
+                elif how == 1:
+                    got = bisc_mod.read_bisc_file(path=os.path.join(os.getcwd(), stem))
+                elif how == 2:
+                    got = bisc_mod.read_bisc_file(pathlib.Path(stem))
+                else:
+                    got = bisc_mod.read_bisc_file(os.path.join(".", stem))
         except Exception as e:  # pylint: disable=broad-except
             return -2, out.getvalue(), type(e).__name__
+        try:
+            return self.classify(stem, got, out)
+        finally:
+            if isinstance(got, dict):
+                got.clear()           # the caller does what it likes with its dictionary: the next read is a new one
+
+    def classify(self, stem, got, out):
         if got == {}:
             return 0, out.getvalue(), None
         if not isinstance(got, dict) or not all(isinstance(k, int) and isinstance(v, (list, tuple)) and all(isinstance(p, tuple) for p in v)
@@ -412,14 +441,22 @@ class Real:
             out = io.StringIO()
             with contextlib.redirect_stdout(out):
                 if self.nmut % 2:
-                    bisc_mod.write_bisc_files(n, lambda p: PREDS[pred](tuple(p)), a["nm"])
+                    if self.nmut % 4 == 1:
+                        bisc_mod.write_bisc_files(n, lambda p: PREDS[pred](tuple(p)), a["nm"])
+                    else:
+                        def the_property(perm):
+                            return PREDS[pred](tuple(perm))
+                        bisc_mod.write_bisc_files(info=os.path.join(os.getcwd(), a["nm"]), prop=the_property, n=n)
                     for kind in ("good", "bad"):
                         self.last.pop("%s_%s_len%d" % (a["nm"], kind, n), None)
                 else:
                     for kind in ("good", "bad"):
                         stem = "%s_%s_len%d" % (a["nm"], kind, n)
                         doc = {k: [Perm(p) for p in v] for k, v in self.doc(stem, d, reverse=True).items()}
-                        bisc_mod.write_json_to_file(doc, stem + ".json")
+                        if self.nmut % 4 == 0:
+                            bisc_mod.write_json_to_file(doc, stem + ".json")
+                        else:
+                            bisc_mod.write_json_to_file(file_name=os.path.join(os.getcwd(), stem + ".json"), json_obj=doc)
                         self.last[stem] = (d, doc)
             return {"printed": out.getvalue()}
         if name == "ReadBisc":
@@ -447,8 +484,10 @@ class Real:
         if name == "StoreDfa":
             if self.nmut % 2:
                 PinWords.store_dfa_for_perm(Perm(p))
-            else:
+            elif self.nmut % 4 == 0:
                 PinWords.store_dfa_for_perm(Perm(p), self.refs.get(p))
+            else:
+                PinWords.store_dfa_for_perm(in_dfa=self.refs.get(p), perm=Perm(p))
             return {}
         if name == "LoadDfa":
             before = memo_hits()
@@ -456,12 +495,22 @@ class Real:
             hit = None if before is None else memo_hits() > before
             return {"tags": [self.refs.tag_of(got, key_of(p))], "hit": hit}
         if name == "CreateDb":
-            PinWords.create_dfa_db_for_length(a["n"])
+            if self.nmut % 2:
+                PinWords.create_dfa_db_for_length(a["n"])
+            else:
+                PinWords.create_dfa_db_for_length(length=a["n"])
             return {}
         if name == "MakeFromDb":
             basis = [tuple(q) for q in self.cfg["bases"][a["b"] - 1]]
             arg = [Perm(q) for q in (reversed(basis) if self.nmut % 2 else basis)]
-            got = PinWords.make_dfa_for_basis_from_db(arg)
+            form = self.nmut % 5          # the same set of permutations in several containers
+            if form == 1:
+                arg = arg + arg[:1] + arg         # every element repeated
+            elif form == 2:
+                arg = tuple(arg)
+            elif form == 3:
+                arg = set(arg)
+            got = PinWords.make_dfa_for_basis_from_db(arg) if form != 4 else PinWords.make_dfa_for_basis_from_db(basis=arg)
             w = distinguishing_word([got], [self.refs.get(q) for q in basis]) if isinstance(got, DFA) else "(not a DFA)"
             return {"tags": sorted(key_of(q) for q in basis) if w is None else ["?"], "word": w}
         if name == "DeleteDb":
@@ -587,15 +636,16 @@ P021, P120, P012, P01, P10 = (0, 2, 1), (1, 2, 0), (0, 1, 2), (0, 1), (1, 0)
 
 def configs(quick):
     two = [(3, "stack_sortable"), (3, "even")]
-    pre_fs = {"fs": {"a_good_len3": ("single", 1), "a_bad_len3": ("single", 1), "b_good_len3": ("junk",)}, "db": []}
+    pre_fs = {"fs": {"a_good_len3": ("single", 1), "a_bad_len3": ("single", 1), "a_b_good_len3": ("junk",)}, "db": []}
     out = [
-        dict(label="files", names=["a", "b"], datasets=two + ([] if quick else [(3, "layered")]), perms=[], dblens=[], bases=[],
+        # (one name is a prefix of the other and contains the separator of the file names)
+        dict(label="files", names=["a", "a_b"], datasets=two + ([] if quick else [(3, "layered")]), perms=[], dblens=[], bases=[],
              ops=FS_OPS, inits=[EMPTY, pre_fs], predepth=2 if quick else 3),
         dict(label="lengths", names=["a"], datasets=[(3, "stack_sortable"), (2, "even")], perms=[], dblens=[], bases=[],
              ops=FS_OPS, inits=[EMPTY, {"fs": {"a_good_len2": ("single", 2), "a_good_len3": ("junk",)}, "db": []}], predepth=2 if quick else 99),
-        dict(label="mixed", names=["a"], datasets=[(3, "even")], perms=[P10], dblens=[], bases=[[P10]],
+        dict(label="mixed", names=["sub/my_set"], datasets=[(3, "even")], perms=[P10], dblens=[], bases=[[P10]],
              ops=FS_OPS + ["StoreDfa", "LoadDfa", "MakeFromDb", "DeleteDb"],
-             inits=[EMPTY, {"fs": {"a_bad_len3": ("single", 1)}, "db": ["10"]}], predepth=2 if quick else 99),
+             inits=[EMPTY, {"fs": {"sub/my_set_bad_len3": ("single", 1)}, "db": ["10"]}], predepth=2 if quick else 99),
         # (index 3: also the universe of the wrong-cache-key run)
         dict(label="db", names=["a"], datasets=two[:1], perms=[P021, P120], dblens=[], bases=[[P021, P120]] + ([] if quick else [[P021], [P01, P120]]),
              ops=["StoreDfa", "LoadDfa", "MakeFromDb", "DeleteDb"], inits=[EMPTY, {"fs": {}, "db": ["120"]}], predepth=99),
@@ -766,10 +816,11 @@ def replay_graph(ctx, cfg, res, refs):
 # ---- code -> spec: random histories ------------------------------------------------------------------------
 def trace_cfg(quick):
     perms = util.perms_of(3) + ([] if quick else [(1, 3, 0, 2)])
-    return dict(label="trace", names=["a", "b", "c"], datasets=[(3, "stack_sortable"), (3, "even"), (2, "layered"), (4, "smooth")],
+    return dict(label="trace", names=["a", "a_b", "sub/c"],
+                datasets=[(3, "stack_sortable"), (3, "even"), (2, "layered"), (4, "smooth"), (0, "even"), (5, "layered")],
                 perms=perms, dblens=[2, 3], bases=[[P021, P120], [P01, P012, (2, 1, 0)], [P10]],
                 ops=FS_OPS + DB_OPS,
-                inits=[EMPTY, {"fs": {"a_good_len3": ("single", 2), "b_bad_len4": ("junk",), "c_good_len2": ("single", 3)}, "db": ["10", "210"]}])
+                inits=[EMPTY, {"fs": {"a_good_len3": ("single", 2), "a_b_bad_len4": ("junk",), "sub/c_good_len2": ("single", 3)}, "db": ["10", "210"]}])
 
 
 def driver(ctx, cfg, refs, rnd, nhist, nsteps):
@@ -841,7 +892,7 @@ def trace_job(cfg, events, holder):
     with os.fdopen(fd, "w") as fh:
         json.dump(events, fh)
     holder.append(path)
-    text, consts = mc_text("MC_T20", "Trace_C20", cfg)
+    text, consts = mc_text("MC_T20", "Trace_C20", cfg, tables=cfg.get("label") == "trace")
     c = util.cfg(init="TInit", next_="TNext", constants=consts, invariants=INVS + ["TraceDone"])
     return ("MC_T20", c, {"files": {"MC_T20.tla": text}, "timeout": 3000, "env": {"TRACE_FILE": path}})
 
@@ -852,6 +903,97 @@ def trace_verdict(res, events, what):
         raise tlc.MachineryFailure("Trace_C20 (%s): trace not fully consumed (%d events, %d states, %d verdict records)\n%s" % (
             what, len(events), res.distinct, len(done), res.stdout[-1500:]))
     return done[0]
+
+
+# ---- cold starts ------------------------------------------------------------------------------------------
+COLD = r"""
+import contextlib, io, json, sys
+from permuta import Perm
+from permuta.bisc import bisc as _b
+import importlib
+bisc_mod = importlib.import_module("permuta.bisc.bisc")
+from permuta.permutils.pin_words import PinWords
+plan = json.loads(sys.argv[1])
+out = []
+buf = io.StringIO()
+with contextlib.redirect_stdout(buf):
+    for step in plan:
+        try:
+            if step[0] == "read":
+                got = bisc_mod.read_bisc_file(step[1])
+                out.append({str(k): [list(p) for p in v] for k, v in got.items()})
+            elif step[0] == "write":
+                bisc_mod.write_bisc_files(step[1], (lambda p: p.count_inversions() % 2 == 0), step[2])
+                out.append(None)
+            elif step[0] == "load":
+                out.append(repr(PinWords.load_dfa_for_perm(Perm(step[1]))))
+            elif step[0] == "make":
+                out.append(repr(PinWords.make_dfa_for_basis_from_db([Perm(p) for p in step[1]])))
+            elif step[0] == "create":
+                PinWords.create_dfa_db_for_length(step[1])
+                out.append(None)
+        except Exception as e:
+            out.append("raise " + type(e).__name__)
+print(json.dumps(out))
+"""
+
+
+def cold_starts(ctx, refs, rnd, quick):
+    """A fresh interpreter in a directory prepared by this process: its first calls are a load / a union from an
+    empty database / a read of a file written by another process; then it writes and this process reads."""
+    even3 = side_tables(3, "even")
+    ss3 = side_tables(3, "stack_sortable")
+    plans = [[["make", [list(P021), list(P120)]], ["load", list(P021)], ["read", "cold_good_len3"], ["write", 3, "cold"], ["read", "cold_good_len3"],
+              ["read", "cold_bad_len3"]],
+             [["load", list(P120)], ["create", 2], ["make", [list(P10), list(P120)]], ["read", "nothing_good_len3"], ["read", "cold_bad_len3"]],
+             [["read", "cold_bad_len3"], ["create", 3], ["load", list(P012)], ["make", [list(P012), list(P021), list(P012)]]]]
+    done = 0
+    for k, plan in enumerate(plans[: (1 if quick else 3)] if not quick else [plans[rnd.randrange(3)]]):
+        d = tempfile.mkdtemp(prefix="cold-", dir=work_base(ctx))
+        try:
+            os.chdir(d)
+            with contextlib.redirect_stdout(io.StringIO()):
+                bisc_mod.write_bisc_files(3, lambda p: PREDS["stack_sortable"](tuple(p)), "cold")
+            env = dict(os.environ, PYTHONPATH=REPO + os.pathsep + os.environ.get("PYTHONPATH", ""))
+            pr = subprocess.run([sys.executable, "-c", COLD, json.dumps(plan)], capture_output=True, text=True, timeout=900, env=env, cwd=d, check=False)
+            if pr.returncode != 0:
+                raise tlc.MachineryFailure("C20: cold-start interpreter failed: " + pr.stderr[-400:])
+            outs = json.loads(pr.stdout.strip().splitlines()[-1])
+            current = ss3                      # what the files of the name "cold" hold, as the history goes
+            for i, (step, o) in enumerate(zip(plan, outs)):
+                case = {"kind": "cold start", "plan": plan, "step": i + 1}
+                ctx.case(("cold", k, i), nontrivial=True)
+                if isinstance(o, str) and o.startswith("raise "):
+                    ctx.violation(case, "NoException", "the call returns", o)
+                    break
+                if step[0] == "write":
+                    current = even3
+                elif step[0] == "read":
+                    kind = "good" if "_good_" in step[1] else "bad"
+                    want = {} if step[1].startswith("nothing") else {str(n): [list(p) for p in row] for n, row in enumerate(current[kind])}
+                    if o != want:
+                        ctx.violation(case, read_clause(1 if want else 0, -1 if o else 0) or "ReadYourLastWrite", want, o)
+                elif step[0] in ("load", "make"):
+                    try:
+                        dfa = eval(o, {"DFA": DFA})  # pylint: disable=eval-used
+                    except Exception:  # pylint: disable=broad-except
+                        dfa = None
+                    want = [tuple(step[1])] if step[0] == "load" else sorted({tuple(q) for q in step[1]})
+                    w = distinguishing_word([dfa], [refs.get(q) for q in want]) if isinstance(dfa, DFA) else "(not an automaton)"
+                    if w is not None:
+                        ctx.violation(case, "LoadFaithful" if step[0] == "load" else "MakeFromDbFaithful",
+                                      "language of the fresh automata of %s" % [key_of(q) for q in want], "differs on the word %s" % w)
+            # what the other process left behind is read here
+            if ["write", 3, "cold"] in plan:
+                with contextlib.redirect_stdout(io.StringIO()):
+                    got = bisc_mod.read_bisc_file("cold_good_len3")
+                if {str(n): [list(p) for p in v] for n, v in got.items()} != {str(n): [list(p) for p in row] for n, row in enumerate(even3["good"])}:
+                    ctx.violation({"kind": "cold start", "plan": plan, "step": "read by the parent afterwards"}, "ReadYourLastWrite", "data set even", "other data")
+            done += 1
+        finally:
+            os.chdir(ctx.scratch)
+            shutil.rmtree(d, ignore_errors=True)
+    ctx.note("cold_starts", done)
 
 
 # ---- shipped data ----------------------------------------------------------------------------------------
@@ -982,6 +1124,8 @@ def _run(ctx):
     tcfg = trace_cfg(quick)
     events = driver(ctx, tcfg, refs, rnd, 6 if quick else 40, 60 if quick else 120)
     lap("random histories on the real code")
+    cold_starts(ctx, refs, rnd, quick)
+    lap("cold starts")
     by_name, info, later = shipped_scan(ctx)
     lap("shipped files: read with read_bisc_file and independently")
 
@@ -1037,6 +1181,7 @@ def _run(ctx):
 
     # ---- code -> spec: histories ---------------------------------------------------------------------------
     r = results[k + 2]
+    check_tables(tcfg, r)          # the data sets of the histories (lengths 0..5), by the definitions of module Persist
     ctx.add_tlc(r, "random histories validated by Trace_C20")
     v = trace_verdict(r, events, "histories")
     ctx.traces += sum(1 for e in events if e["op"] == "Reset")
